@@ -4,7 +4,7 @@
    Cryptography is symbolic (DESIGN §1.3): hashes and signatures are constructors of the free term algebra [tm];
    X25519 ([dh]), the byte order of public keys ([kle]) and FNV-64 ([rk_of]) are Section variables whose
    hypotheses are visible in the statements below. *)
-From Coq Require Import List NArith Bool.
+From Coq Require Import List NArith Bool Arith.
 Import ListNotations.
 From AnySync Require Import Model.Payloads Proofs.PayloadsProofs.
 
@@ -134,6 +134,56 @@ Theorem c13_model_satisfies_spec_oto :
 Proof. exact model_spec_oto. Qed.
 Print Assumptions c13_model_satisfies_spec_oto.
 
+(* ---- overlapping derivations in one process -------------------------------------------------------- *)
+
+(* The SLIP-21 chain at the end of GenerateSharedKey as a small-step machine, any number of calls in flight, every
+   call holding its own node (the code as it is: slip21.DeriveForPath allocates per call).  For EVERY schedule
+   (any interleaving of the steps, as a list of call indices) a call that delivered a key delivered what it
+   computes alone from its own seed and labels.  HMAC ([master], [child]) is arbitrary. *)
+Theorem c13_derivation_schedule_independent :
+  forall (K L S : Type) (master : S -> K) (child : K -> L -> K)
+         (inits : list (S * list L)) (sched : list nat) i c k,
+    nth_error (run_own K L S master child sched (map (dcall_init K L S) inits)) i = Some c ->
+    dc_out c = Some k ->
+    exists sl, nth_error inits i = Some sl /\ k = derive_seq K L S master child (fst sl) (snd sl).
+Proof. exact own_node_schedule_independent. Qed.
+Print Assumptions c13_derivation_schedule_independent.
+
+(* ... and every schedule that gives call i its steps (anywhere, interleaved with anything) makes it deliver *)
+Theorem c13_derivation_fair_delivers :
+  forall (K L S : Type) (master : S -> K) (child : K -> L -> K)
+         (inits : list (S * list L)) (sched : list nat) i sl,
+    nth_error inits i = Some sl ->
+    steps_of L S sl <= count_occ Nat.eq_dec sched i ->
+    exists c, nth_error (run_own K L S master child sched (map (dcall_init K L S) inits)) i = Some c /\
+              dc_out c = Some (derive_seq K L S master child (fst sl) (snd sl)).
+Proof. exact own_node_fair_delivers. Qed.
+Print Assumptions c13_derivation_fair_delivers.
+
+(* hence what a derives for each of any list of contacts [reqs] -- overlapping or not -- is, field by field, what
+   that contact derives for a, and differs in every field from what any other contact derives *)
+Theorem c13_model_satisfies_spec_conc_oto :
+  forall (rk_of : skey -> N) (dh : N -> N -> N) (kle : N -> N -> bool),
+  (forall a b, dh a b = dh b a) ->
+  (forall a b, kle a b = true \/ kle b a = true) ->
+  (forall a b, kle a b = true -> kle b a = true -> a = b) ->
+  forall a st reqs contacts,
+    spec_C13_conc (conc_pairs (fun b b' => tp_eqs (one_to_one rk_of dh kle a b st) (one_to_one rk_of dh kle b' a st))
+                              reqs contacts) = true.
+Proof. exact model_spec_conc_oto. Qed.
+Print Assumptions c13_model_satisfies_spec_conc_oto.
+
+(* the same for the keys of the three derivation paths (space, read key, metadata key) *)
+Theorem c13_model_satisfies_spec_conc_keys :
+  forall (dh : N -> N -> N) (kle : N -> N -> bool),
+  (forall a b, dh a b = dh b a) ->
+  (forall a b, kle a b = true \/ kle b a = true) ->
+  (forall a b, kle a b = true -> kle b a = true -> a = b) ->
+  forall a reqs contacts,
+    spec_C13_conc (conc_pairs (fun b b' => keys_eqs dh kle a b b' a) reqs contacts) = true.
+Proof. exact model_spec_conc_keys. Qed.
+Print Assumptions c13_model_satisfies_spec_conc_keys.
+
 (* ---- non-vacuity ------------------------------------------------------------------------------------ *)
 
 Definition ex_v0 := create_v0 (SKAtom 1) (SKAtom 2) 77 10 (TAtom 5) 11 12 13.
@@ -180,3 +230,32 @@ Proof.
   split; [vm_compute; reflexivity |]. split; [vm_compute; reflexivity |]. split; [vm_compute; reflexivity |].
   intros a b; unfold ex_dh; rewrite N.min_comm, N.max_comm; reflexivity.
 Qed.
+
+(* two overlapping calls, steps interleaved: both deliver their stand-alone value ... *)
+Example c13_derivation_nonvacuous :
+  map (fun c => dc_out c)
+      (run_own (list N) N N free_master free_child [0; 1; 0; 1; 1; 0; 0; 1]%nat
+               (map (dcall_init (list N) N N) [(7, [1; 2]); (8, [1; 2])]%N))
+    = [Some [7; 1; 2]; Some [8; 1; 2]]%N /\
+  derive_seq (list N) N N free_master free_child 7%N [1; 2]%N = [7; 1; 2]%N.
+Proof. vm_compute. split; reflexivity. Qed.
+
+(* ... whereas the same calls over ONE shared node buffer do not: the ownership of the node is what the
+   schedule-independence theorem rests on (the first call delivers a key, and it is the wrong one) *)
+Theorem c13_shared_buffer_refuted :
+  exists (inits : list (N * list N)) (sched : list nat) c,
+    nth_error (snd (run_shared (list N) N N free_master free_child sched
+                      (map (dcall_init (list N) N N) inits))) 0 = Some c /\
+    dc_out c <> None /\
+    dc_out c <> Some (derive_seq (list N) N N free_master free_child 7%N [1; 2]%N).
+Proof. exact shared_buffer_schedule_dependent. Qed.
+Print Assumptions c13_shared_buffer_refuted.
+
+(* the spec predicate for overlapping derivations rejects a result that equals another contact's derivation and
+   one that differs from the own contact's in a single field *)
+Example c13_conc_spec_nonvacuous :
+  spec_C13_conc [(true, [true; true; true]); (false, [false; false; false])] = true /\
+  spec_C13_conc [(true, [true; false; true])] = false /\
+  spec_C13_conc [(false, [false; true; false])] = false /\
+  spec_C13_conc (conc_pairs (fun b b' => keys_eqs ex_dh N.leb 1 b b' 1) [2; 3]%N [2; 3; 4]%N) = true.
+Proof. vm_compute. repeat split; reflexivity. Qed.
